@@ -114,6 +114,12 @@ class Sim:
 
         def scenario(sc):
             sc.accept_threads = False
+            # task bodies of the harness get yield points at entry and exit (a body is not atomic)
+            try:
+                from vtasks import tree as _T
+                _T.HOOK[0] = lambda ev, nid: sc.yield_point("probe:body-" + ev)
+            except Exception:
+                pass
             root = build(sim)
             flush_history(sim.app)
             sim.runner = sim.app.runner
@@ -129,6 +135,13 @@ class Sim:
                     sim.claimed.add(inv.invocation_id)
                     yield inv
             orch.get_invocations_to_run = gitr
+
+            real_on_stop = sim.runner._on_stop
+
+            def on_stop_probe():
+                sim.tracked_at_on_stop = {k: v.thread.is_alive() for k, v in sim.runner.threads.items()}
+                return real_on_stop()
+            sim.runner._on_stop = on_stop_probe
 
             def loop():
                 with warnings.catch_warnings():
